@@ -71,7 +71,7 @@ def lean_ty(t):
             return "(" + " → ".join([lean_ty(a) for a in t[1]] + [res]) + ")"
     return {"int": "Int", "bool": "Bool", "str": "Str", "bytes": "(List Nat)", "row": "Row", "frag": "Fragment", "gap": "Gap",
             "ovres": "OverlapResult", "scaffold": "Scaffold", "bytesio": "PyRt.BytesIO", "unit": "Unit", "sink_str": "Str",
-            "sink_bytes": "(List Nat)", "nat": "Nat", "trtable": "(Char → Char)", "fastainfo": "FastaInfo", "ovref": "Nat", "premise": "Premise", "store": "(List Res)", "scref": "Nat", "ffref": "Nat", "found": "Found", "namer": "PyRt.SrcNamer", "lref": "Nat"}[t]
+            "sink_bytes": "(List Nat)", "nat": "Nat", "trtable": "(Char → Char)", "fastainfo": "FastaInfo", "ovref": "Nat", "premise": "Premise", "store": "(List Res)", "scref": "Nat", "ffref": "Nat", "found": "Found", "namer": "PyRt.SrcNamer", "lref": "Nat", "junction": "Junction", "assembly": "Assembly"}[t]
 
 
 # OBJECT TABLE: (type, python attribute) -> (result type, lean template, may raise)
@@ -211,6 +211,8 @@ def assigned(stmts):
                 for t in (n.targets if isinstance(n, ast.Assign) else [n.target]):
                     if isinstance(t, ast.Attribute) and dotted(t):
                         add(dotted(t).replace(".", "_"))          # an attribute path that is a declared root variable
+                    if isinstance(t, ast.Subscript) and isinstance(t.value, ast.Attribute) and dotted(t.value):
+                        add(dotted(t.value).replace(".", "_"))    # an item of a dictionary attribute
                     if isinstance(t, ast.Attribute) and t.attr in LABEL_FIELD:
                         add("store")
                     if isinstance(t, ast.Attribute) and t.attr in ("rank", "tag", "haplotype", "input_predecessor"):
@@ -541,6 +543,9 @@ class Kernel:
                     return f"(pyDiv {a} {b})", "int"
                 if isinstance(e.op, ast.Mod):
                     return f"(pyMod {a} {b})", "int"
+            if ta == tb and isinstance(ta, tuple) and ta[0] == "set" and isinstance(e.op, (ast.BitOr, ast.Sub, ast.BitAnd)):
+                fn = {ast.BitOr: "sUnion", ast.Sub: "sDiff", ast.BitAnd: "sInter"}[type(e.op)]
+                return f"({fn} {a} {b})", ta
             if ta == tb and ta in ("str", "bytes") and isinstance(e.op, ast.Add):
                 return f"({a} ++ {b})", ta
             if ta == tb and isinstance(ta, tuple) and ta[0] == "list" and isinstance(e.op, ast.Add):
@@ -619,6 +624,13 @@ class Kernel:
                     parts.append(f"decide ({lt} {sym} {rt})")
                 lt, ltt = rt, rtt
             return "(" + " && ".join(parts) + ")", "bool"
+        if isinstance(e, ast.BoolOp) and isinstance(e.op, ast.Or) and len(e.values) == 2:
+            sub = []
+            a, ta = self.expr(e.values[0], env, sub)
+            b, tb = self.expr(e.values[1], env, sub)
+            if not sub and ta == O("str") and tb == "str":
+                # `x or "default"` for a str-or-None x: x when it is a non-empty str
+                return f"(match {a} with | some (c :: cs) => (c :: cs) | _ => {b})", "str"
         if isinstance(e, ast.BoolOp):
             # short-circuit; later operands may be impure (`self.rows and isinstance(self.rows[0], Gap)`)
             is_and = isinstance(e.op, ast.And)
@@ -643,6 +655,16 @@ class Kernel:
             if isinstance(ty, tuple) and ty[0] == "opt" and ty[1] in ("gap", "frag", "row", "scaffold"):
                 return f"(({t}).toList)", L(ty[1])
             raise Unsupported("`[x] if x else []` on a non-optional")
+        if isinstance(e, ast.IfExp) and isinstance(e.test, ast.Name) and env.get(e.test.id) == O("str") and isinstance(e.orelse, ast.Constant) and e.orelse.value is None:
+            # `f(x) if x else None` for a str-or-None x
+            x = e.test.id
+            env2 = dict(env)
+            env2[x] = "str"
+            sub = []
+            a, ta = self.expr(e.body, env2, sub)
+            if sub:
+                raise Unsupported("impure conditional on an optional str")
+            return f"(match {mg(x)} with | some (c :: cs) => (let {mg(x)} : Str := c :: cs; some {a}) | _ => none)", O(ta)
         if isinstance(e, ast.IfExp):
             c, tc = self.expr(e.test, env, binds)
             c = self.truthy(c, tc)
@@ -872,7 +894,7 @@ class Kernel:
                 raise Unsupported("isinstance class")
             if n == "len" and len(e.args) == 1:
                 t, ty = self.expr(e.args[0], env, binds)
-                if isinstance(ty, tuple) and ty[0] == "list" or ty in ("str", "bytes"):
+                if isinstance(ty, tuple) and ty[0] in ("list", "set") or ty in ("str", "bytes"):
                     return f"(Int.ofNat ({t}).length)", "int"
                 raise Unsupported("len of non-sequence")
             if n == "str" and len(e.args) == 1:
@@ -1142,6 +1164,12 @@ class Kernel:
                 return nm, rty
             if isinstance(tb, tuple) and tb[0] == "dict" and m == "values" and not e.args:
                 return f"(({b}).map (fun kv => kv.2))", L(tb[2])
+            if isinstance(tb, tuple) and tb[0] == "dict" and m == "items" and not e.args:
+                return b, L(("tuple", [tb[1], tb[2]]))
+            if tb == "assembly" and m == "fragment_junction_set" and not e.args:
+                nm = self.fresh()
+                binds.append((nm, f"(Assembly.junctionSet {b})", ("set", "junction")))
+                return nm, ("set", "junction")
             if isinstance(tb, tuple) and tb[0] == "dict" and m == "get" and len(e.args) in (1, 2):
                 k, tk = self.expr(e.args[0], env, binds)
                 if tk == O(tb[1]) and len(e.args) == 1:
@@ -1303,7 +1331,7 @@ class Kernel:
         if isinstance(s, ast.Assign):
             return self.assign(s, rest, env, loop)
         if isinstance(s, ast.AugAssign):
-            op = {ast.Add: ast.Add(), ast.Sub: ast.Sub()}.get(type(s.op))
+            op = {ast.Add: ast.Add(), ast.Sub: ast.Sub(), ast.BitOr: ast.BitOr()}.get(type(s.op))
             if op is None:
                 raise Unsupported("augmented assignment operator")
             tgt_load = ast.parse(ast.unparse(s.target), mode="eval").body
@@ -1893,11 +1921,12 @@ class Kernel:
             a = self.block(list(none_body) + ([] if always_exits(none_body) else rest), env, loop)
             b = self.block(list(some_body) + ([] if (some_body and always_exits(some_body)) else rest), env_some, loop)
             return [f"match {mg(x)} with", "| none =>"] + ind(a) + [f"| some {mg(x)} =>"] + ind(b)
-        if isinstance(test, ast.Name) and env.get(test.id) == O("str"):
-            # `if x:` for a str-or-None: None and "" are false; inside the true branch x is a definite str
+        if isinstance(test, ast.Name) and (env.get(test.id) == O("str") or (isinstance(env.get(test.id), tuple) and env[test.id][0] == "opt"
+                                                                      and isinstance(env[test.id][1], tuple) and env[test.id][1][0] in ("list", "set", "dict"))):
+            # `if x:` for a str-or-None (or a collection-or-None): None and the empty value are false; inside the true branch x is definite
             x = test.id
             env_t = dict(env)
-            env_t[x] = "str"
+            env_t[x] = env[x][1]
             a_t = self.block(list(s.body) + ([] if always_exits(s.body) else rest), env_t, loop)
             b_some = self.block(list(s.orelse) + ([] if (s.orelse and always_exits(s.orelse)) else rest), env_t, loop)
             b_none = self.block(list(s.orelse) + ([] if (s.orelse and always_exits(s.orelse)) else rest), env, loop)
@@ -2430,6 +2459,18 @@ IMP_KERNELS_12 = [
          dict_roots={"asm.scaffolds": L("scaffold")}, init_empty=["asm.scaffolds"]),
 ]
 
+JSET = ("set", "junction")
+IMP_KERNELS_13 = [
+    dict(file="assembly/assembly.py", qual="Assembly.fragment_junction_set", lean="Assembly_fragment_junction_set", returns=JSET,
+         attr_params={"self.scaffolds": L("scaffold")}, locals={"junctions": JSET},
+         opaque={"scffld.fragment_junction_set": ([], JSET, True)}),
+    dict(file="assembly/assembly_stats.py", qual="AssemblyStats.make_stats", lean="AssemblyStats_make_stats",
+         params={"output_assemblies": ("dict", O("str"), "assembly")},
+         locals={"input_set": JSET, "output_set": JSET, "output_junction_sets": ("dict", O("str"), JSET)},
+         opaque={"self.input_assembly.fragment_junctions_by_asm_prefix": ([], ("dict", O("str"), JSET), True)},
+         dict_roots={"self.breaks": "int", "self.joins": "int", "self.per_assembly_stats": ("dict", "str", ("dict", "str", "int"))}),
+]
+
 IMP_KERNELS = [
     dict(file="assembly/indexed_assembly.py", qual="IndexedAssembly.find_overlaps", lean="IndexedAssembly_find_overlaps",
          params={"bait": "frag"}, returns=O("ovres"), locals={"ovr": O("int")},
@@ -2461,7 +2502,7 @@ IMP_KERNELS = [
 def main():
     parts = ["/- GENERATED by harness/translate_imp.py from /repo/src — do not edit -/", "import AgpTpf.Model.PyRt", "import AgpTpf.Model.PyRtHeap", "import AgpTpf.Model.Lookup",
              "import AgpTpf.Model.Fasta", "import AgpTpf.Model.Text", "set_option linter.unusedVariables false", "namespace AgpTpf.Gen.Imp", "open AgpTpf", ""]
-    for spec in IMP_KERNELS + IMP_KERNELS_2 + IMP_KERNELS_3 + IMP_KERNELS_4 + IMP_KERNELS_5 + IMP_KERNELS_6 + IMP_KERNELS_7 + IMP_KERNELS_8 + IMP_KERNELS_9 + IMP_KERNELS_10 + IMP_KERNELS_11 + IMP_KERNELS_12:
+    for spec in IMP_KERNELS + IMP_KERNELS_2 + IMP_KERNELS_3 + IMP_KERNELS_4 + IMP_KERNELS_5 + IMP_KERNELS_6 + IMP_KERNELS_7 + IMP_KERNELS_8 + IMP_KERNELS_9 + IMP_KERNELS_10 + IMP_KERNELS_11 + IMP_KERNELS_12 + IMP_KERNELS_13:
         parts.append(translate(spec))
     parts.append("end AgpTpf.Gen.Imp\n")
     txt = "\n".join(parts)
